@@ -7,3 +7,9 @@ pub struct QSpec {
     pub table: String,
     pub sql: String,
 }
+
+pub fn exec_query(env: &mut crate::env::Env, q: &QSpec, ctx: &str) {
+    // (replaced by the evaluator-backed implementation)
+    let r = env.query(&q.sql);
+    crate::exec_more::check_wellformed(env, &q.sql, &r, ctx);
+}
